@@ -485,6 +485,23 @@ def run_property(prop, runner, repo_root, tier, level, seed=0, write_evidence=Tr
         emit('  finding: {}'.format(f))
         emit('VIOLATION property={} replay={}'.format(prop, path))
 
+    liveness = None
+    if tier == 'thorough' and not new and os.environ.get('BBVERIF_NO_LIVENESS') != '1':
+        from . import liveness as _lv
+        try:
+            liveness = _lv.run(prop, repo.root)
+        except Exception as e:  # the twins are a cross-check of the checker, never a verdict on the tree
+            liveness = {'error': repr(e)}
+        if 'error' not in liveness:
+            emit('  rule liveness on this tree: {} of {} known twins applicable; {}'.format(
+                liveness['variants_applicable'], liveness['variants_known'],
+                ', '.join('{} {}/{} as expected'.format(k, v['as_expected'], v['run']) for k, v in sorted(liveness['by_kind'].items()))))
+            for m in liveness['missed']:
+                emit('  SELFTEST-MISS: property={} breaking twin {} was not reported (exit {})'.format(prop, m['variant'], m['exit']))
+            for m in liveness['alarmed']:
+                emit('  SELFTEST-ALARM: property={} preserving twin {} gave exit {}'.format(prop, m['variant'], m['exit']))
+        wall = time.time() - t0
+
     if write_evidence:
         cov = {
             'evaluations': max(n_obl, 1),
@@ -507,6 +524,8 @@ def run_property(prop, runner, repo_root, tier, level, seed=0, write_evidence=Tr
             'known_findings_matched': [f.key for f in listed],
             'source_digests': repo.digests(),
         }
+        if liveness is not None:
+            cov['rule_liveness'] = liveness
         ev = {
             'property_id': prop,
             'tier': tier,
